@@ -31,7 +31,7 @@ type c24Case struct {
 
 func c24Gen(seed uint64, idx, total int, tier string) any {
 	r := vfNewRand(seed, "c24")
-	return &c24Case{Hosts: r.Range(1, 3), Pool: uint8(r.Intn(2)), HandlerAt: vfPick(r, []string{"early", "early", "late"}),
+	return &c24Case{Hosts: vfPick(r, []int{0, 1, 1, 2, 2, 3, 3}), Pool: uint8(r.Intn(2)), HandlerAt: vfPick(r, []string{"early", "early", "late"}),
 		Reneg: r.Bool(0.3), SchedSeed: r.U64(), Strat: vfGenStrategy(r)}
 }
 
@@ -41,7 +41,13 @@ func c24Run(t *testing.T, cj []byte, res *vfResult) {
 		res.Verdict, res.Detail = "error", err.Error()
 		return
 	}
-	if c.Hosts < 1 {
+	if c.Hosts < 0 {
+		c.Hosts = 0
+	}
+	// (Hosts == 0: one interface that a filter hides from the gatherer — gathering yields no
+	// candidate at all and still has to end with the one end-of-gathering notification)
+	hidden := c.Hosts == 0
+	if hidden {
 		c.Hosts = 1
 	}
 	var mu sync.Mutex
@@ -76,7 +82,12 @@ func c24Run(t *testing.T, cj []byte, res *vfResult) {
 		}
 		s.Go("main", func() {
 			var err error
-			p, err = vfNewPeer("A", hn, func(se *SettingEngine, me *MediaEngine, cfg *Configuration) { cfg.ICECandidatePoolSize = c.Pool })
+			p, err = vfNewPeer("A", hn, func(se *SettingEngine, me *MediaEngine, cfg *Configuration) {
+				cfg.ICECandidatePoolSize = c.Pool
+				if hidden {
+					se.SetInterfaceFilter(func(string) bool { return false })
+				}
+			})
 			if err != nil {
 				taskErr = "NewPeerConnection: " + err.Error()
 				return
